@@ -15,7 +15,7 @@ Go code is compared with the reference directly by the stream `shapespec.apply` 
 The first group of theorems states, clause by clause, what the REFERENCE does (they make the
 property's sentences precise); `C06_engine_eq_spec_*` states that the engine computes the same.
 -/
-import SfntV.Proofs.ShapeSpecCtx
+import SfntV.Proofs.ShapeSpecNest
 import SfntV.Proofs.ShapeSpecSem
 
 namespace SfntV.Props.C06
@@ -127,21 +127,26 @@ theorem C06_engine_eq_spec_simple (B : Nat) (ll : LookupList) (gd : Gdef) (looku
   C06.engine_eq_spec_simple B ll gd lookups seq r hsimple h
 
 /-- **The engine computes what the reference computes — contextual and chained contextual
-lookups (formats 1, 2, 3) whose nested lookups are pointwise.**  `C06.nestedPointwiseLL ll` says:
-every lookup that a nested action of any contextual subtable of `ll` names consists of
-subtables that rewrite only the glyph they are applied to (single and alternate substitution
-GSUB 1.1 1.2 3.1, reverse chaining 8.1, single adjustment GPOS 1.1 1.2, mark attachment 4.1 6.1)
-— a strict subclass of the length-preserving nested lookups.  The top-level lookups may mix
-contextual subtables with any non-contextual ones (ligatures and multiple substitutions
-included).  For every such lookup list, all GDEF data, flags, lookup orders and sequences: if the
-reference is defined with result `r`, the engine on a fresh context returns exactly `r`, without
-panic, within fuel, stack empty.  The proof is the simulation of DESIGN §8: the engine's stack
-entry (positions, remaining actions, end position) against the reference's tags on the glyphs. -/
+lookups (formats 1, 2, 3) with one level of nesting.**  `C06.nestedSimpleLL ll` says: every
+lookup that a nested action of any contextual subtable of `ll` names has no contextual subtable
+itself.  The nested lookups may substitute (GSUB 1.1 1.2 3.1 8.1), INSERT glyphs (multiple
+substitution 2.1: the engine repairs the recorded positions with `fixStackInsert`, the reference
+lets the new glyphs inherit the tags; testcases 3_02–3_04, 3_08, 3_09), DELETE glyphs (ligature
+substitution 4.1 inside the window of the match: `fixStackMerge` in the engine, the ligature
+takes the tags of its first component in the reference; testcases 2_08, 2_09, 3_01, 3_05, 3_10),
+position single glyphs, pairs inside the window (GPOS 1.1 1.2 2.1 2.2) and attach marks (4.1
+6.1).  The top-level lookups may mix contextual subtables of all six formats with any
+non-contextual ones.  For every such lookup list, all GDEF data, flags, lookup orders and
+sequences: if the reference is defined with result `r`, the engine on a fresh context returns
+exactly `r`, without panic, within fuel, stack empty.  The proof is the simulation of DESIGN §8:
+the engine's stack entry (positions, remaining actions, end position) against the reference's
+tags on the glyphs.  Not covered: nested lookups that are contextual themselves (two or more
+levels). -/
 theorem C06_engine_eq_spec_ctx_partial (B : Nat) (ll : LookupList) (gd : Gdef) (lookups : List Nat)
-    (seq r : List Glyph) (hnested : C06.nestedPointwiseLL ll = true)
+    (seq r : List Glyph) (hnested : C06.nestedSimpleLL ll = true)
     (h : Spec.Shape.shape B ll gd lookups seq = .ok r) :
     Shape.apply B ll gd lookups [] seq = .ok ⟨r, []⟩ :=
-  C06.engine_eq_spec_ctx B ll gd lookups seq r hnested h
+  C06.engine_eq_spec_nested_simple B ll gd lookups seq r hnested h
 
 /-- The full statement (NOT proved for contextual lookups with arbitrary nested lookups; see cfg
 `partial`): the engine agrees with the reference on every lookup list wherever the reference
@@ -185,6 +190,21 @@ lookup 1 `1 → 3`, ignoring marks, on `1 10 1 1` (instance of `C06_engine_eq_sp
 example : Shape.apply 64
     [⟨8, 0, [.ctx1 [(1, 0)] [[⟨[], [1], [], [⟨1, 1⟩]⟩]]]⟩, ⟨0, 0, [.gsub12 [(1, 0)] [3]]⟩] exGdef [0] [] (exSeq [1, 10, 1, 1])
     = .ok ⟨[⟨1, [97], 0, 0, 0⟩, ⟨10, [98], 0, 0, 0⟩, ⟨3, [99], 0, 0, 0⟩, ⟨1, [100], 0, 0, 0⟩], []⟩ :=
+  C06_engine_eq_spec_ctx_partial 64 _ _ _ _ _ (by decide) (by rfl)
+
+/-- … and for a nested insertion (testcases 3_02): `1 1 → 1@0 2@1`, lookup 1 `1 → 1 1`, lookup 2 `1 → 3` -/
+example : Shape.apply 64
+    [⟨0, 0, [.ctx1 [(1, 0)] [[⟨[], [1], [], [⟨0, 1⟩, ⟨1, 2⟩]⟩]]]⟩,
+     ⟨0, 0, [.gsub21 [(1, 0)] [[1, 1]]]⟩, ⟨0, 0, [.gsub12 [(1, 0)] [3]]⟩] {} [0] [] (exSeq [1, 1])
+    = .ok ⟨[⟨1, [97], 0, 0, 0⟩, ⟨3, [], 0, 0, 0⟩, ⟨1, [98], 0, 0, 0⟩], []⟩ :=
+  C06_engine_eq_spec_ctx_partial 64 _ _ _ _ _ (by decide) (by rfl)
+
+/-- … and for a nested ligature that merges an input glyph with a trailing ignored glyph
+(testcases 2_08): `1 1 → 1@0 1@1` ignoring marks, lookup 1 ligature `1 10 → 2`, on `1 10 1 10` -/
+example : Shape.apply 64
+    [⟨8, 0, [.ctx1 [(1, 0)] [[⟨[], [1], [], [⟨0, 1⟩, ⟨1, 1⟩]⟩]]]⟩, ⟨0, 0, [.gsub41 [(1, 0)] [[⟨[10], 2⟩]]]⟩] exGdef [0] []
+      (exSeq [1, 10, 1, 10])
+    = .ok ⟨[⟨2, [97, 98], 0, 0, 0⟩, ⟨2, [99, 100], 0, 0, 0⟩], []⟩ :=
   C06_engine_eq_spec_ctx_partial 64 _ _ _ _ _ (by decide) (by rfl)
 
 /-- mark-to-base: base 1 (advance 500, anchor (300, 700)), mark 10 (anchor (20, 10)) -/
